@@ -102,6 +102,7 @@ type interpreter struct {
 	top      *frame
 	pool     map[*value][]value
 	syncMaps map[*value]*smap
+	locks    map[uintptr][]lockMode // mutexes held by the execution (self-deadlock detection)
 
 	ulidCounter int
 	race        *raceTrace
